@@ -22,7 +22,7 @@ type Result struct {
 
 const basePreamble = `(declare-datatypes ((Slice 0)) (((mk_slice (s_arr Int) (s_off Int) (s_len Int) (s_cap Int)))))
 (declare-datatypes ((Err 0)) (((ErrNil) (ErrWantLarger (wl_size Int)) (ErrOther (eo_id Int)) (ErrSentinel (es_id Int)) (ErrPathNotExist (pe_id Int)) (ErrFileNotExist (fe_sd Int)) (ErrHTTP (he_id Int)) (ErrIO (io_id Int)))))
-(define-fun slice_ok ((s Slice) (top Int)) Bool (and (<= (s_arr s) top) (<= 0 (s_off s)) (<= 0 (s_len s)) (<= (s_len s) (s_cap s)) (<= (+ (s_off s) (s_cap s)) 140737488355328) (=> (= (s_arr s) 0) (= (s_cap s) 0))))
+(define-fun slice_ok ((s Slice) (top Int)) Bool (and (<= (s_arr s) top) (<= 0 (s_off s)) (<= 0 (s_len s)) (<= (s_len s) (s_cap s)) (<= (+ (s_off s) (s_cap s)) 70368744177664) (=> (= (s_arr s) 0) (= (s_cap s) 0))))
 (define-fun err_notexist ((e Err)) Bool (or ((_ is ErrPathNotExist) e) ((_ is ErrFileNotExist) e)))
 (define-fun wrapu8 ((x Int)) Int (mod x 256))
 (define-fun wrapu16 ((x Int)) Int (mod x 65536))
